@@ -247,3 +247,52 @@ pub fn oracle(d: &Decl, tables: &[String]) -> Vec<String> {
     }
     bad
 }
+
+/// Line-level well-formedness of the SeaORM text (O-C17): every line is one of the forms the exporter is meant to
+/// emit (so free text — descriptions, comments — can only ever sit behind `///`), and no doc-comment line carries a
+/// bare carriage return (rustc: "bare CR not allowed in doc-comment").
+pub fn text_oracle(text: &str) -> Vec<String> {
+    let mut bad = vec![];
+    let mut in_struct = false;
+    let mut in_enum = false;
+    for l in text.split('\n') {
+        let t = l.trim_start();
+        if t.starts_with("///") {
+            if l.contains('\r') {
+                bad.push("bare-cr-in-doc-comment".to_string());
+            }
+            continue;
+        }
+        let ok = if in_struct {
+            if l == "}" {
+                in_struct = false;
+                true
+            } else {
+                t.starts_with("#[sea_orm(") || t.starts_with("pub ")
+            }
+        } else if in_enum {
+            if l == "}" {
+                in_enum = false;
+                true
+            } else {
+                l.starts_with("    ")
+            }
+        } else if l == "pub struct Model {" {
+            in_struct = true;
+            true
+        } else if l.starts_with("pub enum ") && l.ends_with(" {") {
+            in_enum = true;
+            true
+        } else {
+            l.is_empty() || l.starts_with("use ") || l.starts_with("#[") || l.starts_with("// ") || l.starts_with("vespera::schema_type!(")
+                || l == "impl ActiveModelBehavior for ActiveModel {}"
+        };
+        if !ok {
+            let short: String = l.chars().take(60).collect();
+            bad.push(format!("stray-line:{}", short));
+        }
+    }
+    bad.sort();
+    bad.dedup();
+    bad
+}
